@@ -264,3 +264,192 @@ Print Assumptions C19_buf_rot_faults.
 Print Assumptions C19_buf_rot_step.
 Print Assumptions C19_buf_rot_loss_bounded.
 Print Assumptions C19_buf_rot_recovery.
+
+(* ------------------------------------------------------------------ with rotation, NumbersDirect naming *)
+(* I/O failures of a rotating FileLogWriter with NumbersDirect naming (r00000, r00001, ...; no rCURRENT), size criterion,
+   direct mode, no cleanup, synchronous: proofs in Flw/FaultNumDSpec.v (the specification simd and what it implies) and
+   Flw/FaultNumD.v (refinement).  A failing open at a rotation is reported (ELogFile), the record goes into the old
+   file, and the number that was tried is SKIPPED for good (gap in the numbering). *)
+Require Import FL.Flw.NumDInv FL.Flw.NumDRun FL.Flw.FaultNumDSpec FL.Flw.FaultNumD.
+From Coq Require Import Sorted.
+
+(* (1) every fault oracle, every list of records: directory, error channel, rest of the oracle are what simd computes *)
+Theorem C19_numd_faults :
+  forall c m t0 off fl recs, numdcfg c (CSize m) -> c_cap c = None ->
+  let r := run (fsys t0 off fl) (OStart c :: List.map OWrite recs) in
+  let '(files, errs, rest) := simd (c_append c) m fl recs in
+  FsFacts.fs_wf (wfs (s_w (fst r)))
+  /\ gap_view c (wfs (s_w (fst r))) files
+  /\ StronglySorted lt (List.map fst files)
+  /\ werrs (s_w (fst r)) = errs
+  /\ wfaults (s_w (fst r)) = rest
+  /\ (forall o, In o (snd r) -> exists rot, o = ObsRes 0 rot).
+Proof. exact faults_numbersdirect. Qed.
+
+(* (2) record by record *)
+Theorem C19_numd_lost_only_around_failures :
+  forall c m t0 off fl recs, numdcfg c (CSize m) -> c_cap c = None ->
+  let x := fst (run (fsys t0 off fl) (OStart c :: List.map OWrite recs)) in
+  let t := traced (c_append c) m (DInit false) fl recs in
+  exists files,
+    gap_view c (wfs (s_w x)) files /\ StronglySorted lt (List.map fst files)
+    /\ files_stream files = concat (List.map t_kept t)
+    /\ List.map t_rec t = recs
+    /\ werrs (s_w x) = concat (List.map t_errs t)
+    /\ fl = concat (List.map t_used t) ++ wfaults (s_w x)
+    /\ (forall e, In e t -> length (t_errs e) = ntrue (t_used e))
+    /\ (forall e, In e t -> (forall f, In f (t_used e) -> f = false) -> t_errs e = [] /\ t_kept e = t_rec e)
+    /\ (forall e, In e t -> t_kept e <> t_rec e -> In true (t_used e) /\ In EWrite (t_errs e)).
+Proof. exact numd_lost_only_around_failures_run. Qed.
+
+(* (3) every missing record is one reported EWrite; the only other code is ELogFile *)
+Theorem C19_numd_loss_is_reported :
+  forall c m t0 off fl recs, numdcfg c (CSize m) -> c_cap c = None ->
+  let x := fst (run (fsys t0 off fl) (OStart c :: List.map OWrite recs)) in
+  exists files kept,
+    gap_view c (wfs (s_w x)) files /\ StronglySorted lt (List.map fst files)
+    /\ files_stream files = concat kept /\ Subseq kept recs
+    /\ length recs = length kept + nlost (werrs (s_w x))
+    /\ nlost (werrs (s_w x)) <= length (werrs (s_w x))
+    /\ (forall e, In e (werrs (s_w x)) -> e = EWrite \/ e = ELogFile).
+Proof. exact numd_loss_is_reported_run. Qed.
+
+(* (4) recovery: further records *)
+Theorem C19_numd_recovery :
+  forall c m t0 off fl recs1 recs2, numdcfg c (CSize m) -> c_cap c = None ->
+  let x1 := fst (run (fsys t0 off fl) (OStart c :: List.map OWrite recs1)) in
+  let r2 := run (fsys t0 off fl) (OStart c :: List.map OWrite (recs1 ++ recs2)) in
+  let '(st1, _, _) := simd_st (c_append c) m (DInit false) fl recs1 in
+  let '(st2, _, _) := simd_st (c_append c) m (DInit false) fl (recs1 ++ recs2) in
+  all_false (wfaults (s_w x1)) ->
+  gap_view c (wfs (s_w x1)) (d_files st1) /\ gap_view c (wfs (s_w (fst r2))) (d_files st2)
+  /\ werrs (s_w (fst r2)) = werrs (s_w x1)
+  /\ files_stream (d_files st2) = files_stream (d_files st1) ++ concat recs2
+  /\ daview st2 = s_run m (daview st1) (List.map OWrite recs2)
+  /\ (exists n, d_idx st2 = d_idx st1 ++ seq (d_next st1) n)
+  /\ Forall (fun i => i < d_next st1) (d_idx st1)
+  /\ StronglySorted lt (d_idx st2)
+  /\ (exists ext, d_closed st2 = d_closed st1 ++ ext)
+  /\ (recs2 <> [] -> exists cl k d, st2 = DAct cl k 0 d)
+  /\ (forall o, In o (snd r2) -> exists rot, o = ObsRes 0 rot).
+Proof. exact numd_recovery_run. Qed.
+
+(* (4) recovery: arbitrary basic operations, when no number has been skipped *)
+Theorem C19_numd_recovery_ops :
+  forall c m t0 off fl recs ops, numdcfg c (CSize m) -> c_cap c = None -> Forall basic_op ops ->
+  let x := fst (run (fsys t0 off fl) (OStart c :: List.map OWrite recs)) in
+  let '(st, _, rest) := simd_st (c_append c) m (DInit false) fl recs in
+  rest = [] -> forall cl k d, st = DAct cl k 0 d -> List.map fst cl = seq 0 k ->
+    RelD c (CSize m) x (Some (List.map snd cl, d))
+    /\ RelD c (CSize m) (fst (run x ops)) (s_run m (Some (List.map snd cl, d)) ops)
+    /\ (forall i o b, nth_error ops i = Some o -> (o = OWrite b \/ o = OPlain b) ->
+          nth_error (snd (run x ops)) i
+          = Some (ObsRes 0 (m <? N.of_nat (length (cur_of (s_run m (Some (List.map snd cl, d)) (firstn i ops)))))%N)).
+Proof. exact numd_recovery_run_ops. Qed.
+
+(* a failed open skips a number: three failures, the file after r00000 is r00004; nothing is lost *)
+Theorem C19_numd_gap :
+  dx_run false 3 [F;F;F; T;F; T;F; T;F] recs5
+  = ([(d0, 0%N, bs "abcdefghijkl"); (d4, 0%N, bs "mn")], [ELogFile; ELogFile; ELogFile], [], true).
+Proof. vm_compute. reflexivity. Qed.
+
+Print Assumptions C19_numd_faults.
+Print Assumptions C19_numd_lost_only_around_failures.
+Print Assumptions C19_numd_loss_is_reported.
+Print Assumptions C19_numd_recovery.
+Print Assumptions C19_numd_recovery_ops.
+
+(* ------------------------------------------------------------------ with rotation, TimestampsDirect naming *)
+(* proofs in Flw/FaultTsdSpec.v (the specification simt) and Flw/FaultTsd.v (refinement); the history: before each record
+   the clock advances (FaultTsdSpec.tops).  A rotation makes three fallible calls (two listings for the collision-free
+   infix, the open); when one fails it is reported (ELogFile), the record goes into the old file, no name is skipped. *)
+Require Import FL.Flw.TsTime FL.Flw.TsNames FL.Flw.TsInv FL.Flw.TsRun FL.Flw.TsTheorems FL.Flw.TsdInv FL.Flw.TsdRun
+  FL.Flw.TsdRestartInv FL.Flw.FaultTsdSpec FL.Flw.FaultTsd.
+
+Theorem C19_tsd_faults :
+  forall c m t0 off fl recs,
+  tsdcfg c (CSize m) -> c_cap c = None -> tag_ok c -> append_ok c -> ticks_ok recs ->
+  (0 <= t0 + ts_e c off)%Z -> (t0 + telapsed recs + ts_e c off < sec_max)%Z -> (N.of_nat (length recs) <= usize_max)%N ->
+  let r := run (fsys t0 off fl) (OStart c :: tops recs) in
+  let '(keys, conts, errs, rest) := simt (c_append c) m t0 fl recs in
+  FsFacts.fs_wf (wfs (s_w (fst r)))
+  /\ tsd_view c (ts_e c off) (wfs (s_w (fst r))) keys conts
+  /\ keys_ok keys /\ (forall k, In k keys -> (t0 <= fst k <= t0 + telapsed recs)%Z)
+  /\ werrs (s_w (fst r)) = errs
+  /\ wfaults (s_w (fst r)) = rest
+  /\ (forall o, In o (snd r) -> exists rot, o = ObsRes 0 rot).
+Proof. exact faults_timestampsdirect. Qed.
+
+Theorem C19_tsd_lost_only_around_failures :
+  forall c m t0 off fl recs,
+  tsdcfg c (CSize m) -> c_cap c = None -> tag_ok c -> append_ok c -> ticks_ok recs ->
+  (0 <= t0 + ts_e c off)%Z -> (t0 + telapsed recs + ts_e c off < sec_max)%Z -> (N.of_nat (length recs) <= usize_max)%N ->
+  let x := fst (run (fsys t0 off fl) (OStart c :: tops recs)) in
+  let t := tracet (c_append c) m t0 (TInit None) fl recs in
+  exists keys conts,
+    tsd_view c (ts_e c off) (wfs (s_w x)) keys conts /\ keys_ok keys
+    /\ concat conts = concat (List.map t_kept t)
+    /\ List.map t_rec t = List.map snd recs
+    /\ werrs (s_w x) = concat (List.map t_errs t)
+    /\ fl = concat (List.map t_used t) ++ wfaults (s_w x)
+    /\ (forall e, In e t -> length (t_errs e) = ntrue (t_used e))
+    /\ (forall e, In e t -> (forall f, In f (t_used e) -> f = false) -> t_errs e = [] /\ t_kept e = t_rec e)
+    /\ (forall e, In e t -> t_kept e <> t_rec e -> In true (t_used e) /\ In EWrite (t_errs e)).
+Proof. exact tsd_lost_only_around_failures_run. Qed.
+
+Theorem C19_tsd_loss_is_reported :
+  forall c m t0 off fl recs,
+  tsdcfg c (CSize m) -> c_cap c = None -> tag_ok c -> append_ok c -> ticks_ok recs ->
+  (0 <= t0 + ts_e c off)%Z -> (t0 + telapsed recs + ts_e c off < sec_max)%Z -> (N.of_nat (length recs) <= usize_max)%N ->
+  let x := fst (run (fsys t0 off fl) (OStart c :: tops recs)) in
+  exists keys conts kept,
+    tsd_view c (ts_e c off) (wfs (s_w x)) keys conts /\ keys_ok keys
+    /\ concat conts = concat kept /\ Subseq kept (List.map snd recs)
+    /\ length recs = length kept + nlost (werrs (s_w x))
+    /\ nlost (werrs (s_w x)) <= length (werrs (s_w x))
+    /\ (forall e, In e (werrs (s_w x)) -> e = EWrite \/ e = ELogFile).
+Proof. exact tsd_loss_is_reported_run. Qed.
+
+Theorem C19_tsd_recovery :
+  forall c m t0 off fl recs1 recs2,
+  tsdcfg c (CSize m) -> c_cap c = None -> tag_ok c -> append_ok c -> ticks_ok (recs1 ++ recs2) ->
+  (0 <= t0 + ts_e c off)%Z -> (t0 + telapsed (recs1 ++ recs2) + ts_e c off < sec_max)%Z ->
+  (N.of_nat (length (recs1 ++ recs2)) <= usize_max)%N ->
+  let x1 := fst (run (fsys t0 off fl) (OStart c :: tops recs1)) in
+  let r2 := run (fsys t0 off fl) (OStart c :: tops (recs1 ++ recs2)) in
+  let '(st1, _, _) := simt_st (c_append c) m t0 (TInit None) fl recs1 in
+  let '(st2, _, _) := simt_st (c_append c) m t0 (TInit None) fl (recs1 ++ recs2) in
+  all_false (wfaults (s_w x1)) ->
+  tsd_view c (ts_e c off) (wfs (s_w x1)) (t_keys st1) (t_conts st1)
+  /\ tsd_view c (ts_e c off) (wfs (s_w (fst r2))) (t_keys st2) (t_conts st2)
+  /\ werrs (s_w (fst r2)) = werrs (s_w x1)
+  /\ concat (t_conts st2) = concat (t_conts st1) ++ concat (List.map snd recs2)
+  /\ taview st2 = s_run m (taview st1) (tops recs2)
+  /\ textends st1 st2
+  /\ keys_ok (t_keys st2)
+  /\ (recs2 <> [] -> exists keys closed d, st2 = TAct keys closed d)
+  /\ (forall o, In o (snd r2) -> exists rot, o = ObsRes 0 rot).
+Proof. exact tsd_recovery_run. Qed.
+
+(* restricted: states with a pending rotation (over-full file) are left out, see FaultTsd.v *)
+Theorem C19_tsd_recovery_ops_partial :
+  forall c m t0 off fl recs ops,
+  tsdcfg c (CSize m) -> c_cap c = None -> tag_ok c -> append_ok c -> ticks_ok recs ->
+  Forall basic_op ops -> Forall tick_ok ops ->
+  (0 <= t0 + ts_e c off)%Z -> (t0 + telapsed recs + elapsed ops + ts_e c off < sec_max)%Z ->
+  (N.of_nat (length recs + length ops) <= usize_max)%N ->
+  let x := fst (run (fsys t0 off fl) (OStart c :: tops recs)) in
+  let '(st, _, rest) := simt_st (c_append c) m t0 (TInit None) fl recs in
+  rest = [] -> forall keys closed d, st = TAct keys closed d -> (m <? N.of_nat (length d))%N = false ->
+    RelTd c (CSize m) (ts_e c off) t0 (length recs) x (Some (closed, d))
+    /\ RelTd c (CSize m) (ts_e c off) t0 (length recs + length ops) (fst (run x ops)) (s_run m (Some (closed, d)) ops)
+    /\ (forall i o b, nth_error ops i = Some o -> (o = OWrite b \/ o = OPlain b) ->
+          nth_error (snd (run x ops)) i
+          = Some (ObsRes 0 (m <? N.of_nat (length (cur_of (s_run m (Some (closed, d)) (firstn i ops)))))%N)).
+Proof. exact tsd_recovery_run_ops_partial. Qed.
+
+Print Assumptions C19_tsd_faults.
+Print Assumptions C19_tsd_lost_only_around_failures.
+Print Assumptions C19_tsd_loss_is_reported.
+Print Assumptions C19_tsd_recovery.
+Print Assumptions C19_tsd_recovery_ops_partial.
